@@ -2,6 +2,7 @@ import CoxeterVerif.Lemmas.Solid
 import CoxeterVerif.Lemmas.ChainCheck
 import CoxeterVerif.Lemmas.SolidIntegral
 import CoxeterVerif.Lemmas.SolidHistory
+import CoxeterVerif.Lemmas.SolidLebesgue
 /-!
   # C01 — convex polyhedron volume, centroid, inertia are exact; order independent
 
@@ -27,6 +28,9 @@ import CoxeterVerif.Lemmas.SolidHistory
     `cp_history_exact`, `cp_history_exact_checked` — after construction and after any sequence of size / centroid
     setters the CACHED volume and centroid and the inertia tensor computed from the cached simplex normals are the
     exact integrals over the CURRENT solid, the cached area is the area of the current surface;
+  * the integrals are LEBESGUE integrals over the tetrahedra as subsets of `ℝ³` (`Lemmas/SolidLebesgue.lean`: Fubini on the
+    standard simplex + Mathlib's change of variables with `det = det(B−A, C−A, D−A)`): `cp_volume_lebesgue`,
+    `cp_centroid_lebesgue`, `cp_inertia_lebesgue`, `cp_measures_lebesgue_checked`, `cp_history_lebesgue`;
   * `cp_surface_area_eq_sum_faces_checked`: the partition hypothesis is a Boolean the driver evaluates
     (`CP.groupsPartition`) on the implementation's own `_coplanar_simplices`; `combineSimplices_cover`.
 -/
@@ -782,5 +786,163 @@ theorem combineSimplices_cover {tol : ℝ} (htol : 0 < tol) (eqs : List (V3 ℝ 
 
 example : CP.groupsPartition 4 [[0, 2], [1], [3]] = true := by decide
 example : CP.groupsPartition 4 [[0, 2], [2, 3], [1]] = false := by decide
+
+end
+
+/-! ### exactness against Lebesgue integrals over the tetrahedra as subsets of ℝ³ -/
+noncomputable section
+open SolidInt MeasureTheory
+
+/-- **C01 volume = Σ_T λ³(T).** For a surface that bounds positively oriented tetrahedra, the signed-tetrahedron sum
+is the sum of the Lebesgue measures of the tetrahedra `tetSet T = {convex combinations of the four vertices} ⊂ ℝ³`. -/
+theorem cp_volume_lebesgue {S : List (Tri ℝ)} {Ts : List (Tet ℝ)}
+    (h : ChainEq S (Ts.flatMap Tet.bdry)) (hpos : ∀ T ∈ Ts, 0 < tetJac T) :
+    CP.signedVolume S = (Ts.map fun T => volume.real (tetSet T)).sum := by
+  rw [cp_volume_integral h, solidInt_eq_lebInt Ts hpos _ continuous_const, lebInt_one]
+
+/-- with arbitrary orientations every tetrahedron enters with its orientation sign -/
+theorem cp_volume_lebesgue_signed {S : List (Tri ℝ)} {Ts : List (Tet ℝ)}
+    (h : ChainEq S (Ts.flatMap Tet.bdry)) (hnd : ∀ T ∈ Ts, tetJac T ≠ 0) :
+    CP.signedVolume S = (Ts.map fun T => SignType.sign (tetJac T) * volume.real (tetSet T)).sum := by
+  rw [cp_volume_integral h, solidInt_eq_signed_lebesgue Ts hnd _ continuous_const]
+  congr 1; apply List.map_congr_left; intro T _; simp
+
+theorem vol_pos_of_posTets {Ts : List (Tet ℝ)} (hne : Ts ≠ []) (hpos : ∀ T ∈ Ts, 0 < tetJac T) : 0 < Spec.vol Ts := by
+  rw [Spec.vol_eq]
+  cases Ts with
+  | nil => exact absurd rfl hne
+  | cons T Ts =>
+    simp only [List.map_cons, List.sum_cons]
+    have h1 : 0 < Spec.tetVol T := by rw [tetVol_eq_jac]; have := hpos T List.mem_cons_self; positivity
+    have h2 : 0 ≤ (Ts.map Spec.tetVol).sum := by
+      apply List.sum_nonneg
+      intro x hx
+      obtain ⟨U, hU, rfl⟩ := List.mem_map.mp hx
+      rw [tetVol_eq_jac]; have := hpos U (List.mem_cons_of_mem _ hU); positivity
+    linarith
+
+/-- **C01 centroid = Σ_T ∫_T x dλ³ / Σ_T ∫_T 1 dλ³.** -/
+theorem cp_centroid_lebesgue {S : List (Tri ℝ)} {Ts : List (Tet ℝ)}
+    (h : ChainEq S (Ts.flatMap Tet.bdry)) (hne : Ts ≠ []) (hpos : ∀ T ∈ Ts, 0 < tetJac T) :
+    CP.centroid S (CP.volume S) = centroidLeb Ts := by
+  rw [cp_centroid_integral h (vol_pos_of_posTets hne hpos), centroidInt_eq_centroidLeb Ts hpos]
+
+/-- **C01 inertia tensor = Σ_T ∫_T (|x|² δ_ij − x_i x_j) dλ³.** -/
+theorem cp_inertia_lebesgue {S : List (Tri ℝ)} {Ts : List (Tet ℝ)}
+    (h : ChainEq S (Ts.flatMap Tet.bdry)) (hnd : ∀ t ∈ S, V3.norm t.nvec ≠ 0) (hne : Ts ≠ [])
+    (hpos : ∀ T ∈ Ts, 0 < tetJac T) :
+    CP.inertia S (CP.centroid S (CP.volume S)) (CP.volume S) = inertiaLeb Ts := by
+  rw [cp_inertia_integral h hnd (vol_pos_of_posTets hne hpos), inertiaInt_eq_inertiaLeb Ts hpos]
+
+/-- soundness of the orientation check the driver runs in ℚ -/
+theorem posTetsCheck_rat_sound {Ts : List (Tet ℚ)} (h : CPH.posTetsCheck Ts = true) :
+    ∀ T ∈ Ts.map CCk.tetOfRat, 0 < tetJac T := by
+  intro T hT
+  obtain ⟨U, hU, rfl⟩ := List.mem_map.mp hT
+  unfold CPH.posTetsCheck at h
+  rw [List.all_eq_true] at h
+  have hq := of_decide_eq_true (h U hU)
+  have hq' : (0 : ℚ) < Spec.tetVol U := by
+    have e : (Scalar.lit 0 : ℚ) = 0 := by show ((0 : ℕ) : ℚ) = 0; simp
+    rw [e] at hq; exact hq
+  have hr : (0 : ℝ) < Spec.tetVol (CCk.tetOfRat U) := by rw [CCk.tetVol_ofRat]; exact_mod_cast hq'
+  rw [tetVol_eq_jac] at hr
+  linarith
+
+/-- **Per-run tie against Lebesgue integrals.** From the four facts the driver decides exactly in ℚ on the run's own
+simplices `S` and cone tetrahedra `Ts` (`chain.check`, `tets.positive`): reported volume, centroid and inertia tensor of
+the real surface are sums of Lebesgue integrals over the real tetrahedra as subsets of `ℝ³`. -/
+theorem cp_measures_lebesgue_checked {S : List (Tri ℚ)} {Ts : List (Tet ℚ)}
+    (h : ChainCheck.chainCheck S (Ts.flatMap Tet.bdry) = true)
+    (hnd : ChainCheck.nondegCheck S = true) (hpos : 0 < Spec.vol Ts) (hor : CPH.posTetsCheck Ts = true) :
+    CP.volume (S.map CCk.triOfRat) = ((Ts.map CCk.tetOfRat).map fun T => volume.real (tetSet T)).sum ∧
+    CP.centroid (S.map CCk.triOfRat) (CP.volume (S.map CCk.triOfRat)) = centroidLeb (Ts.map CCk.tetOfRat) ∧
+    CP.inertia (S.map CCk.triOfRat) (CP.centroid (S.map CCk.triOfRat) (CP.volume (S.map CCk.triOfRat)))
+        (CP.volume (S.map CCk.triOfRat)) = inertiaLeb (Ts.map CCk.tetOfRat) := by
+  obtain ⟨h1, h2, h3⟩ := cp_measures_integral_checked h hnd hpos
+  have hp := posTetsCheck_rat_sound hor
+  exact ⟨by rw [h1, solidInt_eq_lebInt _ hp _ continuous_const, lebInt_one],
+    by rw [h2, centroidInt_eq_centroidLeb _ hp], by rw [h3, inertiaInt_eq_inertiaLeb _ hp]⟩
+
+/-- **State part against Lebesgue integrals**: when the caches describe a solid of positively oriented tetrahedra, the
+getters return Lebesgue integrals over them. (Scalings by `k > 0` and translations keep the orientation, so this holds
+along every history that starts from positively oriented tetrahedra: `posTets_run`.) -/
+theorem cp_state_lebesgue {s : Mut.CPState ℝ} {Ts : List (Tet ℝ)} (h : CPH.MeasInv s Ts)
+    (hpos : ∀ T ∈ Ts, 0 < tetJac T) :
+    s.volume = (Ts.map fun T => volume.real (tetSet T)).sum ∧ s.centroid = centroidLeb Ts ∧
+    CPH.inertiaTensor s = inertiaLeb Ts := by
+  obtain ⟨h1, h2, h3, _⟩ := cp_state_exact h
+  exact ⟨by rw [h1, solidInt_eq_lebInt _ hpos _ continuous_const, lebInt_one],
+    by rw [h2, centroidInt_eq_centroidLeb _ hpos], by rw [h3, inertiaInt_eq_inertiaLeb _ hpos]⟩
+
+example : 0 < tetJac exT := by unfold tetJac exT; unfold_model; norm_num
+example : CPH.posTetsCheck [exTq] = true := by decide +kernel
+
+end
+
+/-! ### Lebesgue form along histories: similarities with positive factor keep every tetrahedron positively oriented -/
+noncomputable section
+open SolidInt CPH Mut MeasureTheory
+
+theorem tetJac_smul (k : ℝ) (T : Tet ℝ) : tetJac (T.map (V3.smul k)) = k * k * k * tetJac T := by
+  obtain ⟨⟨ax,ay,az⟩,⟨bx,b_y,bz⟩,⟨cx,cy,cz⟩,⟨dx,dy,dz⟩⟩ := T
+  unfold tetJac; unfold_model; ring
+
+theorem tetJac_add (d : V3 ℝ) (T : Tet ℝ) : tetJac (T.map (· + d)) = tetJac T := by
+  obtain ⟨⟨ax,ay,az⟩,⟨bx,b_y,bz⟩,⟨cx,cy,cz⟩,⟨dx,dy,dz⟩⟩ := T
+  obtain ⟨d1,d2,d3⟩ := d
+  unfold tetJac; unfold_model; ring
+
+theorem posTets_scale {k : ℝ} (hk : 0 < k) {Ts : List (Tet ℝ)} (h : ∀ T ∈ Ts, 0 < tetJac T) :
+    ∀ T ∈ scaleTets k Ts, 0 < tetJac T := by
+  intro T hT
+  obtain ⟨U, hU, rfl⟩ := List.mem_map.mp hT
+  rw [tetJac_smul]; have := h U hU; positivity
+
+theorem posTets_shift (d : V3 ℝ) {Ts : List (Tet ℝ)} (h : ∀ T ∈ Ts, 0 < tetJac T) :
+    ∀ T ∈ shiftTets d Ts, 0 < tetJac T := by
+  intro T hT
+  obtain ⟨U, hU, rfl⟩ := List.mem_map.mp hT
+  rw [tetJac_add]; exact h U hU
+
+/-- one operation keeps the orientation of every tetrahedron -/
+theorem posTets_move {s : CPState ℝ} {Ts : List (Tet ℝ)} (hi : MeasInv s Ts) (op : MOp ℝ) (hop : op.Valid)
+    (h : ∀ T ∈ Ts, 0 < tetJac T) : ∀ T ∈ moveTets s op Ts, 0 < tetJac T := by
+  unfold moveTets
+  cases op with
+  | setVolume v =>
+    cases hk : setterFactor 3 s.volume v with
+    | error e => simpa [hk] using h
+    | ok k => simpa [hk] using posTets_scale (setterFactor_pos' hi.vol_pos hk) h
+  | setSurfaceArea v =>
+    cases hk : setterFactor 2 s.area v with
+    | error e => simpa [hk] using h
+    | ok k => simpa [hk] using posTets_scale (setterFactor_pos' hi.area_pos hk) h
+  | setRadius cur v =>
+    cases hk : setterFactor 1 cur v with
+    | error e => simpa [hk] using h
+    | ok k => simpa [hk] using posTets_scale (setterFactor_pos' hop hk) h
+  | setCentroid c => exact posTets_shift _ h
+
+theorem posTets_run (ops : List (MOp ℝ)) : ∀ {s : CPState ℝ} {Ts : List (Tet ℝ)}, MeasInv s Ts →
+    (∀ op ∈ ops, op.Valid) → (∀ T ∈ Ts, 0 < tetJac T) → ∀ T ∈ runTets s ops Ts, 0 < tetJac T := by
+  induction ops with
+  | nil => intro s Ts _ _ h; exact h
+  | cons op ops ih =>
+    intro s Ts hi hv h
+    have hop := hv op List.mem_cons_self
+    exact ih (apply_inv hi op hop) (fun o ho => hv o (List.mem_cons_of_mem _ ho)) (posTets_move hi op hop h)
+
+/-- **C01 state, any history, Lebesgue form.** -/
+theorem cp_history_lebesgue {s : CPState ℝ} {Ts : List (Tet ℝ)} (h : MeasInv s Ts) (hpos : ∀ T ∈ Ts, 0 < tetJac T)
+    (ops : List (MOp ℝ)) (hv : ∀ op ∈ ops, op.Valid) :
+    (run s ops).volume = ((runTets s ops Ts).map fun T => volume.real (tetSet T)).sum ∧
+    (run s ops).centroid = centroidLeb (runTets s ops Ts) ∧
+    inertiaTensor (run s ops) = inertiaLeb (runTets s ops Ts) :=
+  cp_state_lebesgue (run_inv ops h hv) (posTets_run ops h hv hpos)
+
+example : ∀ T ∈ [exT], 0 < tetJac T := by
+  intro T hT; simp only [List.mem_cons, List.not_mem_nil, or_false] at hT; subst hT
+  unfold tetJac exT; unfold_model; norm_num
 
 end
